@@ -304,6 +304,7 @@ class ExecBase:
         nodes = [e.value if isinstance(e, ast.Starred) else e for e in n.elts]
         def k(p1, vs):
             elems = []
+            segs = []        # list of ('elems', [SV]) / ('seq', SV) when a starred operand has unknown arity
             for node, v in zip(n.elts, vs):
                 if isinstance(node, ast.Starred):
                     tup = v.get("tup")
@@ -312,12 +313,26 @@ class ExecBase:
                         continue
                     ar = s.unit.star_arity.get(ast.unparse(node.value))
                     if ar is None:
-                        raise Unsupported(f"starred value of unknown arity: {ast.unparse(node.value)} @ {node.lineno}")
-                    s.oblig(f"safe.star_arity[{ast.unparse(node.value)}]", "site", p1, p1.length(v.t) == ar)
+                        if elems:
+                            segs.append(("elems", elems))
+                            elems = []
+                        segs.append(("seq", v))
+                        continue
+                    ok_, bad_ = s.fork(p1, p1.length(v.t) == ar)
+                    if bad_ is not None:
+                        s.oblig(f"safe.star_arity[{ast.unparse(node.value)}]", "site", p1, p1.length(v.t) == ar)
                     elems += [SV(p1.elem(v.t, i)) for i in range(ar)]
                 else:
                     elems.append(v)
-            return [("ok", p1, s.make_tuple(p1, elems, kindname))]
+            if not segs:
+                return [("ok", p1, s.make_tuple(p1, elems, kindname))]
+            if elems:
+                segs.append(("elems", elems))
+            acc = None
+            for kind_, x in segs:
+                part = s.make_tuple(p1, x, kindname) if kind_ == "elems" else SV(x.t, ty=kindname)
+                acc = part if acc is None else s.concat_seq(p1, acc, part)
+            return [("ok", p1, SV(acc.t, ty=kindname))]
         return s.seq(nodes, p, k)
 
     def e_Dict(s, n, p):
@@ -612,4 +627,4 @@ def _root_is_local(n, p):
 
 BUILTIN_NAMES = {"len", "isinstance", "reversed", "list", "tuple", "id", "hasattr", "getattr", "callable", "repr", "str",
                  "next", "iter", "range", "enumerate", "set", "bool", "type", "int", "dict", "bytes", "super", "setattr",
-                 "sorted", "zip", "min", "max", "any", "all", "print", "object"}
+                 "sorted", "zip", "min", "max", "any", "all", "print", "object", "hash"}
